@@ -322,6 +322,7 @@ TRUSTED_COMMON = [
     "driver coq/driver/fpmodel.ml + main.ml (parsing/printing only)",
     "harness (generators, canonicalisation, diffing) under /verif/harness",
     "CPython 3.12 / networkx 3.6.1 / HiGHS 1.15.1 as execution platform of the implementation",
+    "HiGHS is assumed to answer correctly (optimal / infeasible mean what they say); its presolve was observed to violate this (feasible models reported infeasible), so the harness runs the library with SolverWrapper.presolve = 'off' (the class default the library documents; VERIF_PRESOLVE overrides)",
 ]
 
 
